@@ -10,6 +10,9 @@ ADDED_AFTER = {"C02a": "C02.R7", "C08a": "C08.R5", "C10a": "C10.R4", "C11a": "C1
                "C03a": "C03.R6 (written while reading the seed's summary)",
                "C05b": "C05.R4 (pre-pass clause)", "C03b": "C11.R2 (result index)", "C04b": "C04.R5", "C10b": "C10.R5",
                "C11b": "C11.R8", "C16b": "C16.R3 / C10.R6", "C18b": "C18.R6", "C20b": "C20.R4",
+               "C02d": "C02.R9", "C03d": "C03.R8", "C06d": "C06.R6", "C07d": "C07.R8", "C08d": "C08.R4 (initial value of Store.sc)", "C10d": "C10.R8",
+               "C11d": "C11.R11", "C12d": "C12.R7", "C13d": "C13.R3 / C10.R3 (no answer without the view)", "C14d": "C14.R3 (height direction)", "C16d": "C16.R4",
+               "C17d": "C17.R7", "C19d": "C19.R6",
                "C02c": "C02.R8", "C07c": "C07.R7", "C08c": "C08.R6 / C10.R7", "C11c": "C11.R10", "C12c": "C12.R6", "C13c": "C13.R5", "C18c": "C18.R7"}
 MISS_WHY = {"C16a": "VerifyProof rejects a true statement for particular tree shapes: completeness of proof verification is value-level (listed as not covered)",
             "C08b": "a delete is elided from the tree commit when the committed value is empty: which keys reach the tree is value-level (canonical-commitment clause, not covered); the loop that filters is order-insensitive and the rules rightly stay silent",
@@ -56,7 +59,7 @@ def seeds():
     return "\n".join(rows)
 
 t = open(f"{V}/tools/DESIGN.tmpl.md").read()
-na = len(glob.glob(f"{V}/selftest/*/benign-agent-*.patch")); nh = len(glob.glob(f"{V}/selftest/*/benign-*.patch")) - na
+na = len(glob.glob(f"{V}/selftest/*/benign-agent*-*.patch")); nh = len(glob.glob(f"{V}/selftest/*/benign-*.patch")) - na
 benign = f"The self-test currently holds {na} agent-written and {nh} hand-written behaviour-preserving refactorings; all are silent."
 t = t.replace("{{RULES}}", rules()).replace("{{SEEDS}}", seeds()).replace("{{BENIGN}}", benign)
 open(f"{V}/DESIGN.md", "w").write(t)
